@@ -34,6 +34,8 @@ type c14Job struct {
 	Start    int      `json:"start"`
 	// Literal: for literal-only functions "pkgpath.name" -> per result position -> expected alternatives in source order
 	Literal  map[string][][]c14Exp `json:"literal,omitempty"`
+	// Possible: "pkgpath.name" -> per result position -> the only integer constants that can reach that position
+	Possible map[string][][]string `json:"possible,omitempty"`
 	Progress string                `json:"progress"`
 	Out      string                `json:"out"`
 }
@@ -101,6 +103,9 @@ func childMain() {
 			if e := ev.Guard(func() error {
 				var err error
 				alts, hasBody, err = checkResults(p, fn, job.Literal[name])
+				if err == nil {
+					err = checkPossible(p, fn, job.Possible[name])
+				}
 				return err
 			}); e != nil {
 				line.Err = e.Error()
@@ -288,6 +293,34 @@ func checkResults(p gengotypes.Package, fn *types.Func, literal [][]c14Exp) (alt
 		}
 	}
 	return alts, hasBody, nil
+}
+
+// checkPossible: every constant alternative must be one of the constants that can reach the position.
+func checkPossible(p gengotypes.Package, fn *types.Func, possible [][]string) error {
+	if possible == nil {
+		return nil
+	}
+	results, _ := p.ResultsOf(fn)
+	if len(results) != len(possible) {
+		return fmt.Errorf("harness: possible-set expectation has %d positions, function %d", len(possible), len(results))
+	}
+	for i, list := range results {
+		for _, r := range list {
+			if r.Value == nil {
+				continue
+			}
+			ok := false
+			for _, v := range possible[i] {
+				if r.Value.ExactString() == v {
+					ok = true
+				}
+			}
+			if !ok {
+				return fmt.Errorf("result %d: the constant %s is reported, but only %v can ever reach that position (all results: %s)", i, r.Value.ExactString(), possible[i], results)
+			}
+		}
+	}
+	return nil
 }
 
 type c14Crash struct {
